@@ -260,8 +260,144 @@ fn exec_drop_body(workers: usize) {
     obs("dropped");
 }
 
+/// A task that panics while a sibling task is still running on another
+/// worker; the executor is then dropped. The drop must return (all workers
+/// joined) and the sibling's future must be released exactly once.
+struct Busy {
+    steps: usize,
+    flag: Arc<shuttle::sync::atomic::AtomicUsize>,
+    drops: Arc<AtomicUsize>,
+}
+impl Future for Busy {
+    type Output = ();
+    fn poll(self: Pin<&mut Self>, _cx: &mut TaskCx<'_>) -> Poll<()> {
+        for _ in 0..self.steps {
+            // Scheduling points inside the "handler".
+            self.flag.fetch_add(1, shuttle::sync::atomic::Ordering::SeqCst);
+        }
+        Poll::Ready(())
+    }
+}
+impl Drop for Busy {
+    fn drop(&mut self) {
+        self.drops.fetch_add(1, StdOrdering::SeqCst);
+    }
+}
+struct Bomb {
+    drops: Arc<AtomicUsize>,
+}
+impl Future for Bomb {
+    type Output = ();
+    fn poll(self: Pin<&mut Self>, _cx: &mut TaskCx<'_>) -> Poll<()> {
+        panic!("bomb");
+    }
+}
+impl Drop for Bomb {
+    fn drop(&mut self) {
+        self.drops.fetch_add(1, StdOrdering::SeqCst);
+    }
+}
+
+/// Parks on its first poll; when woken behaves as a bomb or as a busy task.
+struct ParkThen {
+    polled: bool,
+    me: Arc<StdMutex<Option<Waker>>>,
+    bomb: bool,
+    flag: Arc<shuttle::sync::atomic::AtomicUsize>,
+    drops: Arc<AtomicUsize>,
+}
+impl Future for ParkThen {
+    type Output = ();
+    fn poll(mut self: Pin<&mut Self>, cx: &mut TaskCx<'_>) -> Poll<()> {
+        if !self.polled {
+            self.polled = true;
+            *self.me.lock().unwrap() = Some(cx.waker().clone());
+            return Poll::Pending;
+        }
+        if self.bomb {
+            panic!("bomb");
+        }
+        for _ in 0..3 {
+            self.flag.fetch_add(1, shuttle::sync::atomic::Ordering::SeqCst);
+        }
+        Poll::Ready(())
+    }
+}
+impl Drop for ParkThen {
+    fn drop(&mut self) {
+        self.drops.fetch_add(1, StdOrdering::SeqCst);
+    }
+}
+
+/// One task wakes a bomb and a busy task in a single poll, so that they run on
+/// two workers; the panic is reported while the busy task may still be
+/// running, and the executor is dropped right away.
+fn exec_panic_fanout_body(workers: usize, bomb_first: bool) {
+    let mut ex = Executor::new_multi_threaded(workers, SimulationContext {}, Signal::new());
+    let drops = Arc::new(AtomicUsize::new(0));
+    let done = Arc::new(AtomicUsize::new(0));
+    let flag = Arc::new(shuttle::sync::atomic::AtomicUsize::new(0));
+    let slots: Vec<Arc<StdMutex<Option<Waker>>>> = (0..3).map(|_| Arc::new(StdMutex::new(None))).collect();
+    ex.spawn_and_forget(ParkThen { polled: false, me: slots[1].clone(), bomb: true, flag: flag.clone(), drops: drops.clone() });
+    ex.spawn_and_forget(ParkThen { polled: false, me: slots[2].clone(), bomb: false, flag: flag.clone(), drops: drops.clone() });
+    ex.run(Duration::ZERO).unwrap();
+    let order = if bomb_first { vec![slots[1].clone(), slots[2].clone()] } else { vec![slots[2].clone(), slots[1].clone()] };
+    ex.spawn_and_forget(Relay { polled: false, wake: order, me: slots[0].clone(), done: done.clone(), wait_for_wake: false });
+    let r = ex.run(Duration::ZERO);
+    assert!(matches!(r, Err(crate::executor::ExecutorError::Panic(..))), "[error_class] run() did not report the panic");
+    drop(ex);
+    for s in &slots {
+        s.lock().unwrap().take();
+    }
+    assert_eq!(drops.load(StdOrdering::SeqCst), 2, "[drop] {} of 2 parked task futures dropped with the executor", drops.load(StdOrdering::SeqCst));
+    obs("dropped after panic");
+}
+
+/// A timed `run` that may expire while tasks are still running on the
+/// workers, followed at once by the drop of the executor: the drop must
+/// return and release every task future exactly once.
+fn exec_timeout_drop_body(workers: usize) {
+    let mut ex = Executor::new_multi_threaded(workers, SimulationContext {}, Signal::new());
+    let drops = Arc::new(AtomicUsize::new(0));
+    let done = Arc::new(AtomicUsize::new(0));
+    let flag = Arc::new(shuttle::sync::atomic::AtomicUsize::new(0));
+    let slots: Vec<Arc<StdMutex<Option<Waker>>>> = (0..3).map(|_| Arc::new(StdMutex::new(None))).collect();
+    ex.spawn_and_forget(ParkThen { polled: false, me: slots[1].clone(), bomb: false, flag: flag.clone(), drops: drops.clone() });
+    ex.spawn_and_forget(ParkThen { polled: false, me: slots[2].clone(), bomb: false, flag: flag.clone(), drops: drops.clone() });
+    ex.run(Duration::ZERO).unwrap();
+    ex.spawn_and_forget(Relay { polled: false, wake: vec![slots[1].clone(), slots[2].clone()], me: slots[0].clone(), done: done.clone(), wait_for_wake: false });
+    let r = ex.run(Duration::from_millis(1));
+    let timed_out = matches!(r, Err(crate::executor::ExecutorError::Timeout));
+    assert!(timed_out || r.is_ok(), "[error_class] unexpected result of a timed run");
+    drop(ex);
+    for s in &slots {
+        s.lock().unwrap().take();
+    }
+    assert_eq!(drops.load(StdOrdering::SeqCst), 2, "[drop] {} of 2 task futures dropped with the executor", drops.load(StdOrdering::SeqCst));
+    obs(format!("timed_out={}", timed_out));
+}
+
+fn exec_panic_drop_body(workers: usize) {
+    let mut ex = Executor::new_multi_threaded(workers, SimulationContext {}, Signal::new());
+    let drops = Arc::new(AtomicUsize::new(0));
+    let flag = Arc::new(shuttle::sync::atomic::AtomicUsize::new(0));
+    // Several busy tasks and one bomb: the bucket is shared between workers.
+    for _ in 0..2 {
+        ex.spawn_and_forget(Busy { steps: 3, flag: flag.clone(), drops: drops.clone() });
+    }
+    ex.spawn_and_forget(Bomb { drops: drops.clone() });
+    ex.spawn_and_forget(Busy { steps: 3, flag: flag.clone(), drops: drops.clone() });
+    let r = ex.run(Duration::ZERO);
+    assert!(matches!(r, Err(crate::executor::ExecutorError::Panic(..))), "[error_class] run() did not report the panic");
+    drop(ex);
+    assert_eq!(drops.load(StdOrdering::SeqCst), 4, "[drop] {} of 4 task futures dropped with the executor", drops.load(StdOrdering::SeqCst));
+    obs("dropped after panic");
+}
+
 pub fn exec_drop_items() -> Vec<Item> {
     vec![
+        Item::new("exec_timeout_drop/2w", 50_000, 2, 3, || exec_timeout_drop_body(2)).caps(300_000, 30_000_000),
+        Item::new("exec_timeout_drop/3w", 50_000, 1, 2, || exec_timeout_drop_body(3)).caps(300_000, 30_000_000),
         Item::new("exec_drop/2w", 50_000, 2, 3, || exec_drop_body(2)).caps(300_000, 30_000_000),
         Item::new("exec_drop/3w", 50_000, 1, 2, || exec_drop_body(3)).caps(300_000, 30_000_000),
     ]
